@@ -9,7 +9,7 @@
     Go operations that can panic are checked ([outcome]): versionFromPath slices path[und+2:dot].
     The format-version constants (index.IndexFormatVersion / NextIndexFormatVersion) are parameters
     [cur next] supplied by the harness from the real constants, not copied into the model. *)
-From ZV Require Import Lib.Base.
+From ZV Require Import Lib.Base Model.RankedStore.
 
 Definition path := list N.
 Definition c_und : N := 95.   (* '_' *)
@@ -176,18 +176,25 @@ Record c19step := mkStep {
   s_drop : list N;                          (* observed, as name indexes, any order *)
   s_load : list N;
   s_ts : list (N * N);                      (* DirectoryWatcher.timestamps after the scan: name index, mtime offset *)
-  s_loaded : list (N * N)                   (* shards map after the scan: name index, content identity *)
+  s_loaded : list (N * N);                  (* shards map after the scan: name index, content identity *)
+  s_held : list (N * list (N * N))          (* snapshots HELD since an earlier getLoaded, iterated after this scan:
+                                               (id of the getLoaded, what the held slice shows now); id 2i = taken
+                                               after the drop of scan i, 2i+1 = taken after scan i *)
 }.
 Inductive c19case :=
 | CScan (cur next : Z) (dir : list N) (t0 : Z) (names : list (list N)) (steps : list c19step)
-| CVfp (p : list N) (observed : option (list N * Z)).   (* None = versionFromPath panicked *)
+| CVfp (p : list N) (observed : option (list N * Z))    (* None = versionFromPath panicked *)
+| CHeld (init : list (N * N)) (pubs : list (list (N * N))) (seen : list (N * N)).
+  (* a search took its list when [init] (repo, version; sorted by repo) was published, [pubs] were published while it
+     was running, [seen] = the (repo, version) pairs of its result sorted by repo *)
 
 Definition full (dir : list N) (base : list N) : path := dir ++ [47%N] ++ base.
 Definition step_wf (n : nat) (s : c19step) : bool :=
   let ok := fun i : N => (N.to_nat i <? n) in
   forallb (fun r : raw_ent => let '(i, _, _, _) := r in ok i) (s_listing s) &&
   forallb ok (s_drop s) && forallb ok (s_load s) &&
-  forallb (fun kv => ok (fst kv)) (s_ts s) && forallb (fun kv => ok (fst kv)) (s_loaded s).
+  forallb (fun kv => ok (fst kv)) (s_ts s) && forallb (fun kv => ok (fst kv)) (s_loaded s) &&
+  forallb (fun h => forallb (fun kv => ok (fst kv)) (snd h)) (s_held s).
 Definition path_at (paths : list path) (i : N) : path := nth (N.to_nat i) paths [].   (* guarded by step_wf *)
 Definition mk_ent (paths : list path) (t0 : Z) (r : raw_ent) : fent :=
   let '(i, m, c, l) := r in mkF (path_at paths i) (t0 + Z.of_N m)%Z c l.
@@ -199,33 +206,64 @@ Definition same_map {V} (veq : V -> V -> bool) (a b : list (path * V)) : bool :=
   forallb (fun kv => match lookup (fst kv) b with Some v => veq (snd kv) v | None => false end) a &&
   forallb (fun kv => match lookup (fst kv) a with Some v => veq (snd kv) v | None => false end) b.
 
-Fixpoint run_steps (cur next : Z) (paths : list path) (t0 : Z) (st : wstate) (steps : list c19step) : bool :=
+(** The published lists live in the store of Model/RankedStore.v: every value scan publishes goes through
+    [publish_cow] (what replace does), getLoaded hands out the current HEADER, and a held header is read back through
+    the store as it is NOW.  [hdrs] = the headers handed out so far (id 2i: after the drop of scan i, 2i+1: after
+    scan i).  A held snapshot the harness iterated after a later scan must show what the model's store shows. *)
+Definition lookup_hdr (id : N) (hdrs : list (N * shdr)) : option shdr :=
+  match find (fun h => N.eqb (fst h) id) hdrs with Some h => Some (snd h) | None => None end.
+Definition held_ok (paths : list path) (rs : ranked_state (path * N)) (hdrs : list (N * shdr)) (h : N * list (N * N)) : bool :=
+  match lookup_hdr (fst h) hdrs with
+  | Some sl => match read (rs_store rs) sl with
+               | Some v => same_map N.eqb v (map (fun kv => (path_at paths (fst kv), snd kv)) (snd h))
+               | None => false
+               end
+  | None => false
+  end.
+(** scan's publications in the store: the after-drop list (if anything was dropped) first, then the rest *)
+Definition publish_scan (rs : ranked_state (path * N)) (o : scan_out) : ranked_state (path * N) * ranked_state (path * N) :=
+  match o_drop o, o_snaps o with
+  | _ :: _, sd :: rest => let rs1 := publish_cow rs sd in (rs1, publish_all rs1 rest)
+  | _, sn => (rs, publish_all rs sn)
+  end.
+
+Fixpoint run_steps (cur next : Z) (paths : list path) (t0 : Z) (i : N) (st : wstate)
+         (rs : ranked_state (path * N)) (hdrs : list (N * shdr)) (steps : list c19step) : bool :=
   match steps with
   | [] => true
   | s :: r =>
       step_wf (length paths) s &&
       let L := map (mk_ent paths t0) (s_listing s) in
       match scan cur next L st with
-      | Panic _ => s_panicked s && run_steps cur next paths t0 st r   (* the Go harness keeps the previous state *)
+      | Panic _ => s_panicked s && run_steps cur next paths t0 (i + 1) st rs hdrs r   (* the Go harness keeps the previous state *)
       | Err _ => false
       | Ok o =>
+          let '(rs1, rs2) := publish_scan rs o in
+          let hdrs' := (2 * i + 1, get_loaded rs2)%N :: (2 * i, get_loaded rs1)%N :: hdrs in
           negb (s_panicked s) &&
           same_paths (o_drop o) (map (path_at paths) (s_drop s)) &&
           same_paths (o_load o) (map (path_at paths) (s_load s)) &&
           same_map Z.eqb (w_ts (o_state o)) (map (fun kv => (path_at paths (fst kv), (t0 + Z.of_N (snd kv))%Z)) (s_ts s)) &&
           same_map N.eqb (w_loaded (o_state o)) (map (fun kv => (path_at paths (fst kv), snd kv)) (s_loaded s)) &&
-          run_steps cur next paths t0 (o_state o) r
+          forallb (held_ok paths rs2 hdrs') (s_held s) &&
+          run_steps cur next paths t0 (i + 1) (o_state o) rs2 hdrs' r
       end
   end.
 
 Definition c19_ok (c : c19case) : bool :=
   match c with
-  | CScan cur next dir t0 names steps => run_steps cur next (map (full dir) names) t0 w_init steps
+  | CScan cur next dir t0 names steps => run_steps cur next (map (full dir) names) t0 0 w_init rs_init [] steps
   | CVfp p obs =>
       match version_from_path p, obs with
       | Panic _, None => true
       | Ok (n, v), Some (n', v') => path_eqb n n' && Z.eqb v v'
       | _, _ => false
+      end
+  | CHeld init pubs seen =>
+      let rs0 := publish_cow rs_init init in
+      match read (rs_store (publish_all rs0 pubs)) (get_loaded rs0) with
+      | Some v => list_eqb (fun a b => N.eqb (fst a) (fst b) && N.eqb (snd a) (snd b)) v seen
+      | None => false
       end
   end.
 Definition c19_mismatches (cs : list c19case) : list N := bad_indexes c19_ok cs.
